@@ -179,6 +179,10 @@ impl<'tcx> Ctx<'tcx> {
                 write!(s, ",\"int\":{}", esc(&format!("{}", v))).unwrap();
             }
         }
+        if let Some(sd) = c.check_static_ptr(tcx) {
+            write!(s, ",\"static\":{}", esc(&tcx.def_path_str(sd))).unwrap();
+            write!(s, ",\"static_local\":{}", sd.is_local()).unwrap();
+        }
         write!(s, ",\"disp\":{}", esc(&format!("{}", c.const_))).unwrap();
         s.push('}');
         s
@@ -352,6 +356,59 @@ impl<'tcx> Ctx<'tcx> {
             }
         }
         write!(s, ",\"arg_count\":{}", body.arg_count).unwrap();
+        // promoted constants: which constants does each promoted body mention
+        s.push_str(",\"promoted\":[");
+        {
+            let proms = tcx.promoted_mir(did);
+            let mut firstp = true;
+            for (pi, pb) in proms.iter_enumerated() {
+                if !firstp {
+                    s.push(',');
+                }
+                firstp = false;
+                let mut cs: Vec<String> = Vec::new();
+                for bb in pb.basic_blocks.iter() {
+                    for st in &bb.statements {
+                        if let StatementKind::Assign(b) = &st.kind {
+                            let (_, rv) = &**b;
+                            let mut ops: Vec<&Operand<'tcx>> = Vec::new();
+                            match rv {
+                                Rvalue::Use(o, ..) | Rvalue::Repeat(o, _) | Rvalue::Cast(_, o, _) | Rvalue::UnaryOp(_, o) => ops.push(o),
+                                Rvalue::BinaryOp(_, ab) => {
+                                    ops.push(&ab.0);
+                                    ops.push(&ab.1);
+                                }
+                                Rvalue::Aggregate(_, os) => {
+                                    for o in os.iter() {
+                                        ops.push(o);
+                                    }
+                                }
+                                _ => {}
+                            }
+                            for o in ops {
+                                if let Operand::Constant(c) = o {
+                                    cs.push(self.const_json(did, c));
+                                }
+                            }
+                        }
+                    }
+                    if let Some(t) = &bb.terminator {
+                        if let TerminatorKind::Call { func, args, .. } = &t.kind {
+                            if let Operand::Constant(c) = func {
+                                cs.push(self.const_json(did, c));
+                            }
+                            for a in args.iter() {
+                                if let Operand::Constant(c) = &a.node {
+                                    cs.push(self.const_json(did, c));
+                                }
+                            }
+                        }
+                    }
+                }
+                write!(s, "{{\"i\":{},\"consts\":[{}]}}", pi.as_usize(), cs.join(",")).unwrap();
+            }
+        }
+        s.push(']');
         // locals
         s.push_str(",\"locals\":[");
         let mut names: Vec<Option<String>> = vec![None; body.local_decls.len()];
